@@ -7,7 +7,7 @@ with the instance's attributes, because water_FVF / gas_FVF / gas_viscosity iter
 not accept a scalar at all.
 
 Tolerances (relative to the scalar value): 1e-12 for float64 / int64 / int32 input, 1e-5 for float32 input
-(measured on the clean code: exactly 0 resp. <= 2.4e-7).
+(measured on the clean code: <= 7e-15 resp. <= 3.7e-7).
 
 Length-0 arrays: require no exception and an empty floating result.  Unsupported on the clean code and therefore
 excluded from the family (not a violation): Fluid.oil_viscosity (np.vectorize without otypes raises ValueError
@@ -167,7 +167,17 @@ def value_lists(rng, name, P, dtype):
     return lists
 
 
+def _import_quietly():
+    """bluebonnet's import registers a matplotlib scale and may emit (pending) deprecation warnings"""
+    with warnings.catch_warnings():
+        warnings.simplefilter("ignore")
+        import bluebonnet.fluids  # noqa: F401
+        import bluebonnet.forecast  # noqa: F401
+        import bluebonnet.plotting  # noqa: F401
+
+
 def run(ctx):
+    _import_quietly()
     quick = ctx.tier == "quick"
     rng = random.Random(ctx.seed)
     nsets = 6 if quick else 60
@@ -190,6 +200,7 @@ def run(ctx):
 
 
 def replay(case):
+    _import_quietly()
     cfg = dict(case.get("input", case))
     clause = cfg.pop("clause", None) or case.get("clause")
     res = evaluate(cfg)
